@@ -19,6 +19,7 @@ MANIFEST = {
              'C12_sifo_refines / C12_fsv_order_refines / C12_frame_sort_values_refines / C12_series_sort_values_refines (the implementation model of sort_index_for_order, Frame.sort_values, '
              'Series.sort_values -- with loop directions, lexsort threshold and order[::-1] REGENERATED from the source text into Gen/Gen_c12.v on every run -- equals the specification for every input in the stated domain), '
              'C12_default_kind_stable (every sort method\'s effective default kind, regenerated, is in the stable set). '
+             'C12_go_key_vectors_current (grow-only hierarchical index, any history of append/extend/reads: with the REGENERATED refresh condition of IndexHierarchy.values_at_depth and the flag updates of IndexHierarchyGO.append/extend, the lexsort keys are those of the current labels). '
              'Correspondence: API-level runs of Series/Frame/Index/IndexHierarchy sort_index, sort_columns, sort_values, sort over all block layouts, both axes, both directions, '
              '1-3 keys / depths, key functions returning arrays and containers; kernel-level runs of sort_index_for_order; oracle sweeps of np.argsort(mergesort) and np.lexsort; malformed key-function results.'),
     'note': ('trusted: Coq kernel, harness, the AST extractor generate() of this module (fail closed), the oracle contract "np.argsort(kind=mergesort/stable) and each np.lexsort pass return the stable sorted arrangement under '
@@ -35,6 +36,7 @@ IMPORTS = 'Require Import SF.Prelude SF.Dtype SF.Value SF.PyDyn SF.SortCore SF.S
 RULE = ('oracle strata: every key list up to a length bound over 3 values (+NaN) per dtype through np.argsort(kind=mergesort) / np.lexsort, plus random long lists with few distinct keys; '
         'kernel stratum: sort_index_for_order called directly on flat and hierarchical indices with/without key functions; api strata: public sort_* calls on generated Series/Frames '
         '(duplicate, negative, NaN, string, bool keys; 1-3 key columns / index depths; both axes; both directions; every block layout of small frames); malformed stream: key results of wrong length. '
+        'api:go-sort: FrameGO / IndexGO / IndexHierarchyGO with histories [materialise] -> grow (setitem/append/extend) -> sort as the FIRST read, specified on the current content built independently; then the input and the result are grown in turn and the other re-snapshotted (no shared mutable index); kernel:ih-cache: values_at_depth as first read after growth against the cache model. '
         'A case is non-trivial when the specified order is neither the identity nor its plain reverse, or when it exercises ties (stability); distinct = distinct (call, input, key function, direction).')
 ASSUMPTIONS = [
     'np.argsort(kind="mergesort") and every pass of np.lexsort return the stable sorted arrangement under val_leb (numbers by value, NaN last, strings by code point); validated by oracle:* strata',
